@@ -9,6 +9,9 @@
 //	bX.n eX.n  the same, held inside PreStart on whichever node executes the local spawn / released
 //	L.n.k      from now on node n believes node k is the cluster coordinator
 //	K.n        Shutdown of the singleton instance hosted by node n, wait for the death watch
+//	xX.n       cancel the context of the call HELD for node n (the winner of the flight): the caller returns at once, the
+//	           singleton's PreStart (which honours its context) fails when the hold is released, the flight ends with the
+//	           winner's context error and its followers retry once, coalesced again
 //	fX.n       SpawnSingleton issued on node n (own cancellable context) while the spawn it must join is held: a FOLLOWER
 //	           of the single flight; prints `wait` when it is still waiting after the grace period (always, in the code as it is)
 //	cX.n       cancel the follower issued on node n and collect its result
@@ -66,6 +69,10 @@ func (s *single) PreStart(ctx *actor.Context) error {
 	if g != nil {
 		w.events <- "pre:" + strconv.Itoa(n)
 		<-g
+	}
+	// a PreStart that honours its context (I/O under the spawn context): the caller gave up, initialisation fails
+	if err := ctx.Context().Err(); err != nil {
+		return err
 	}
 	w.mu.Lock()
 	w.live[n]++
@@ -154,12 +161,14 @@ func showRes(pid *actor.PID, err error) string {
 }
 
 type pending struct {
-	done   chan struct{}
-	pid    *actor.PID
-	err    error
-	gate   chan struct{}
-	exec   int
-	cancel context.CancelFunc
+	done      chan struct{}
+	pid       *actor.PID
+	err       error
+	gate      chan struct{}
+	exec      int
+	cancel    context.CancelFunc
+	cancelled bool
+	retry     bool // the entry stands for the followers' retry held inside its PreStart
 }
 
 type run struct {
@@ -258,14 +267,15 @@ func (r *run) op(tok string) string {
 		if f[0] == "X" {
 			return showRes(r.w.spawn(ctx, n))
 		}
-		pd := &pending{done: make(chan struct{}), gate: make(chan struct{}), exec: m}
+		hctx, hcancel := context.WithCancel(ctx)
+		pd := &pending{done: make(chan struct{}), gate: make(chan struct{}), exec: m, cancel: hcancel}
 		if m >= 0 {
 			r.w.mu.Lock()
 			r.w.preGate[m] = pd.gate
 			r.w.mu.Unlock()
 		}
 		go func() {
-			pd.pid, pd.err = r.w.spawn(ctx, n)
+			pd.pid, pd.err = r.w.spawn(hctx, n)
 			close(pd.done)
 		}()
 		select {
@@ -275,6 +285,7 @@ func (r *run) op(tok string) string {
 				delete(r.w.preGate, m)
 				r.w.mu.Unlock()
 			}
+			hcancel()
 			return showRes(pd.pid, pd.err)
 		case ev := <-r.w.events:
 			if ev != "pre:"+strconv.Itoa(m) {
@@ -358,6 +369,23 @@ func (r *run) op(tok string) string {
 		case <-time.After(settle):
 			return "timeout"
 		}
+	case "xX":
+		n, ok := arg(1)
+		if !ok || len(f) != 2 {
+			return "bad-op"
+		}
+		pd, open := r.held[n]
+		if !open || pd.cancelled || pd.retry {
+			return "none"
+		}
+		pd.cancelled = true
+		pd.cancel()
+		select {
+		case <-pd.done:
+			return showRes(pd.pid, pd.err) // the caller gives up at once; its spawn is still inside PreStart
+		case <-time.After(settle):
+			return "timeout"
+		}
 	case "eX":
 		n, ok := arg(1)
 		if !ok || len(f) != 2 {
@@ -368,7 +396,67 @@ func (r *run) op(tok string) string {
 			return "none"
 		}
 		delete(r.held, n)
+		if pd.retry {
+			// second release: the followers' retry leaves PreStart, runs and publishes; every follower finishes
+			close(pd.gate)
+			for _, fl := range r.fol {
+				if fl.exec == pd.exec {
+					select {
+					case <-fl.done:
+					case <-time.After(settle):
+						return "timeout"
+					}
+				}
+			}
+			return "ok"
+		}
+		if pd.cancelled {
+			// PreStart now fails with the winner's context error and the flight ends with it. Its followers (healthy
+			// contexts) retry once; the retry is held inside ITS PreStart so that every follower is back on one flight.
+			var waiting []*pending
+			for _, fl := range r.fol {
+				if fl.exec == pd.exec {
+					waiting = append(waiting, fl)
+				}
+			}
+			if len(waiting) == 0 {
+				close(pd.gate)
+				return "failed"
+			}
+			gate2 := make(chan struct{})
+			r.w.mu.Lock()
+			r.w.preGate[pd.exec] = gate2
+			r.w.mu.Unlock()
+			close(pd.gate)
+			alldone := make(chan struct{})
+			go func() {
+				for _, fl := range waiting {
+					<-fl.done
+				}
+				close(alldone)
+			}()
+			select {
+			case ev := <-r.w.events:
+				if ev != "pre:"+strconv.Itoa(pd.exec) {
+					return "unexpected-event:" + ev
+				}
+				r.held[n] = &pending{gate: gate2, exec: pd.exec, retry: true, cancel: func() {}, done: alldone}
+				// give the other followers time to come back to the gate while the retry is held (they must find its
+				// flight open and wait on it; nothing observable tells when they have, hence a pause)
+				time.Sleep(grace)
+				return "retry"
+			case <-alldone:
+				// the retry ended without creating an actor (the name had been published meanwhile)
+				r.w.mu.Lock()
+				delete(r.w.preGate, pd.exec)
+				r.w.mu.Unlock()
+				return "failed"
+			case <-time.After(settle):
+				return "timeout"
+			}
+		}
 		close(pd.gate)
+		defer pd.cancel()
 		select {
 		case <-pd.done:
 			return showRes(pd.pid, pd.err)
@@ -475,6 +563,7 @@ func runCase(line string) string {
 	for n, pd := range r.held {
 		close(pd.gate)
 		<-pd.done
+		pd.cancel()
 		delete(r.held, n)
 	}
 	for n, pd := range r.fol {
